@@ -407,6 +407,9 @@ func suiteRefactor(c *Ctx) error {
 				if strings.Contains(kind, "flip-of-constant-test") {
 					cls = "C02/fingerprint-changed:flip-of-constant-test"
 				}
+				if strings.Contains(kind, "big-literal-in-counted-loop-header") {
+					cls = "C02/fingerprint-changed:big-literal-in-counted-loop-header"
+				}
 				c.Violate("C02", cls, fmt.Sprintf("function %s (%s family): fingerprint changes under the cosmetic refactoring %q", short, fam, kind),
 					map[string]interface{}{"function": short, "refactoring": kind, "source": j.baseSrc, "variant_source": j.v.src, "ir_before": b.CanonicalIR, "ir_after": g.CanonicalIR})
 			}
